@@ -76,6 +76,9 @@ func (p *prover) atom(v ssa.Value, isLen bool) int {
 	if !isLen && p.nonneg != nil && p.nonneg(v) {
 		nn = true
 	}
+	if !isLen && countsUp(v) {
+		nn = true
+	}
 	p.nn = append(p.nn, nn)
 	if isLen {
 		p.lenOf[v] = i
@@ -399,6 +402,32 @@ func Prove(ins ssa.Instruction, goals []goalT, nonneg NonNeg) (ok bool, atoms, c
 			p.evalLen(g.ylen, dry, 0)
 		}
 	}
+	// The enumeration window is small: a fact that involves a constant outside it could not be satisfied by any
+	// assignment and would make every goal hold vacuously. Such facts are dropped (fewer facts is sound); a goal
+	// with such a constant cannot be decided here.
+	var kept []pred
+	for _, f := range facts {
+		if !bigConst(f.x, 0) && !bigConst(f.y, 0) {
+			kept = append(kept, f)
+		}
+	}
+	facts = kept
+	for i := range splits {
+		for j, cs := range splits[i].cases {
+			var k2 []pred
+			for _, f := range cs {
+				if !bigConst(f.x, 0) && !bigConst(f.y, 0) {
+					k2 = append(k2, f)
+				}
+			}
+			splits[i].cases[j] = k2
+		}
+	}
+	for _, g := range goals {
+		if bigConst(g.x, 0) || (g.y != nil && bigConst(g.y, 0)) {
+			return false, len(p.atoms), 0
+		}
+	}
 	n := len(p.atoms)
 	if n > 6 || p.bad {
 		return false, n, 0
@@ -539,4 +568,83 @@ func Debug(ins ssa.Instruction, nonneg NonNeg) string {
 	_ = a
 	_ = c
 	return s
+}
+
+// ProveGoals is Prove for callers outside the package: each goal is X op Y
+// (Y nil with YLen set compares against len(YLen)).
+func ProveGoals(ins ssa.Instruction, goals []Goal, nonneg NonNeg) bool {
+	var gs []goalT
+	for _, g := range goals {
+		gs = append(gs, goalT{op: g.Op, x: g.X, y: g.Y, ylen: g.YLen})
+	}
+	ok, _, _ := Prove(ins, gs, nonneg)
+	return ok
+}
+
+// Zero is the integer constant 0 for goals.
+var Zero ssa.Value = zero
+
+// bigConst: the expression contains an integer constant of magnitude > 2.
+func bigConst(v ssa.Value, depth int) bool {
+	if v == nil || depth > 6 {
+		return false
+	}
+	switch x := v.(type) {
+	case *ssa.Const:
+		if k, ok := constInt(x); ok {
+			return k > 2 || k < -2
+		}
+		return false
+	case *ssa.BinOp:
+		return bigConst(x.X, depth+1) || bigConst(x.Y, depth+1)
+	case *ssa.Convert:
+		return bigConst(x.X, depth+1)
+	case *ssa.ChangeType:
+		return bigConst(x.X, depth+1)
+	}
+	return false
+}
+
+// countsUp: a loop counter that starts at a non-negative constant and is only
+// ever increased by non-negative constants (i := 0; ...; i++, possibly through
+// several phis) is non-negative - by induction over the loop: every phi is
+// assumed non-negative while its edges are checked (machine-integer wrap-around
+// is ignored, as everywhere in this package).
+func countsUp(v ssa.Value) bool {
+	if _, ok := v.(*ssa.Phi); !ok {
+		return false
+	}
+	assume := map[ssa.Value]bool{}
+	var nn func(x ssa.Value, d int) bool
+	nn = func(x ssa.Value, d int) bool {
+		if d > 8 {
+			return false
+		}
+		if assume[x] {
+			return true
+		}
+		switch y := x.(type) {
+		case *ssa.Const:
+			c, ok := constInt(y)
+			return ok && c >= 0
+		case *ssa.Phi:
+			if !isInt(y) {
+				return false
+			}
+			assume[y] = true
+			for _, e := range y.Edges {
+				if !nn(e, d+1) {
+					delete(assume, y)
+					return false
+				}
+			}
+			return true
+		case *ssa.BinOp:
+			if y.Op == token.ADD {
+				return nn(y.X, d+1) && nn(y.Y, d+1)
+			}
+		}
+		return false
+	}
+	return nn(v, 0)
 }
